@@ -28,6 +28,30 @@ def lit_int(rng: random.Random, v: int) -> str:
     return oct(v)
 
 
+def _ascii_lookalikes() -> list:
+    """Every non-ASCII code point that some Unicode normalisation form or case mapping turns into ONE ASCII character
+    (KELVIN SIGN -> K, GREEK QUESTION MARK -> ;, fullwidth forms, superscripts, LONG S, ...): still not ASCII, must be rejected."""
+    import unicodedata
+    out: list = [[], [], []]
+    for cp in list(range(0x80, 0x3000)) + list(range(0xff00, 0xfff0)) + list(range(0x1d400, 0x1d800)) + list(range(0x1f100, 0x1f200)):
+        c = chr(cp)
+        if 0xd800 <= cp < 0xe000:
+            continue
+        forms = [unicodedata.normalize(f, c) for f in ("NFC", "NFD", "NFKC", "NFKD")] + [c.lower(), c.upper(), c.casefold()]
+        ascii1 = [len(x) == 1 and ord(x) < 128 for x in forms]
+        if any(ascii1[:2]):
+            out[0].append(c)  # canonical (de)composition
+        elif any(ascii1[4:]):
+            out[1].append(c)  # case mapping
+        elif any(ascii1):
+            out[2].append(c)  # compatibility (de)composition
+    return out
+
+
+ASCII_LOOKALIKE_CLASSES = _ascii_lookalikes()
+ASCII_LOOKALIKES = [c for cl in ASCII_LOOKALIKE_CLASSES for c in cl]
+
+
 def gen_const(rng: random.Random, name: str):
     """Returns an item ["c", T, name, literal, value] - value: bool | [n, d] | {"str": s} | {"set": 1}"""
     r = rng.random()
@@ -51,8 +75,9 @@ def gen_const(rng: random.Random, name: str):
     if k < 0.08:
         return ["c", t, name, rng.choice(["true", "false"]), rng.random() < 0.5] if False else ["c", t, name, "true", True]
     if k < 0.2:
-        s = rng.choice(["a", "", "ab", "é", "\x00", "\x7f", "ÿ", "Z", " ", "\x80", "0"])
-        lit = "'" + "".join(c if (32 <= ord(c) < 127 and c not in "'\\") else "\\u%04x" % ord(c) for c in s) + "'"
+        s = rng.choice(["a", "", "ab", "é", "\x00", "\x7f", "ÿ", "Z", " ", "\x80", "0", "K", "`", ";"] + [rng.choice(rng.choice([cl for cl in ASCII_LOOKALIKE_CLASSES if cl]))] * 6)
+        raw = rng.random() < 0.4  # the character itself in the (UTF-8) file instead of an escape sequence
+        lit = "'" + "".join(c if ((32 <= ord(c) < 127 or (raw and ord(c) >= 0xa0 and c.isprintable())) and c not in "'\\") else ("\\u%04x" % ord(c) if ord(c) < 0x10000 else "\\U%08x" % ord(c)) for c in s) + "'"
         return ["c", t, name, lit, {"str": s}]
     if k < 0.24:
         return ["c", t, name, "{1, 2}", {"set": 1}]
